@@ -27,7 +27,7 @@ class P(Prop):
             "chars, with/without final newline, CRLF files, the empty file), one of the 8 "
             "readable classes (text / memory-mapped x plain / record x immutable / mutable-but-unmodified), an index "
             "source (built, list, index file, subset, permutation) and a script of accesses: f[i] for positive and "
-            "negative i, index iterables, slices, len, list(f), several stepped iterators interleaved with random "
+            "negative i, index iterables (as list, tuple or one-shot iterator), slices, len, list(f), several stepped iterators interleaved with random "
             "accesses, close/open.  Every result is compared.  non-trivial = the script interleaves an iterator with "
             "another access or the index is custom; distinct by canonical case text")
     trusted = ["text I/O: seek(offset) then readline() returns the decoded bytes from offset to the next '\\n' (newline='\\n')",
@@ -137,7 +137,10 @@ class P(Prop):
                     if c == 0:
                         r = attempt(lambda: enc(fobj[op[1]]))
                     elif c == 1:
-                        r = attempt(lambda: [enc(x) for x in fobj[list(op[1])]])
+                        # the selector is an iterable: a list, a tuple or a one-shot iterator, chosen by the indices themselves
+                        form = (sum(op[1]) + len(op[1])) % 3
+                        sel = list(op[1]) if form == 0 else tuple(op[1]) if form == 1 else iter(list(op[1]))
+                        r = attempt(lambda: [enc(x) for x in fobj[sel]])
                     elif c == 2:
                         sl = slice(op[2] if op[1] else None, op[4] if op[3] else None, op[5])
                         r = attempt(lambda: [enc(x) for x in fobj[sl]])
